@@ -2,7 +2,7 @@
 from __future__ import annotations
 
 from harness import impl
-from harness.common import rng, short
+from harness.common import quick_scale, rng, short
 from harness.gen import corpus, mutate, pyprog, xonshgen
 
 VERSIONS = [None, (3, 8), (3, 9), (3, 10), (3, 11), (3, 12), (3, 13), (4, 0), (5, 3), (3, 12, 1, 0), (3, 11, 0, 0), (3, 12, 0)]
@@ -77,7 +77,7 @@ def _short(o):
 
 def build_inputs(tier):
     r = rng("C15")
-    N = 1 if tier == "quick" else 15
+    N = quick_scale() if tier == "quick" else 15
     cases = []
     for s, need in GATED.items():
         cases.append((s, "exec", need))
